@@ -160,6 +160,7 @@ def run(modname, tier, seed, out=sys.stdout):
                 viol_groups[s] = [v, v.get("input"), 0]
             viol_groups[s][2] += 1
     common.close_pool()
+    common.cover_flush()
 
     unlisted = []
     for s in sorted(viol_groups):
